@@ -391,10 +391,10 @@ def grid(draw, p=None):
         off = draw(st.sampled_from([0, 3, 100]))
         for b, lab in zip(recipe["buses"], perm):
             b["index"] = int(lab) + off
-    if p.get("bus_order") and draw(st.integers(0, 2)) == 0:
+    if p.get("bus_order") and (draw(st.integers(0, 2)) == 0 or (sl > 0 and draw(st.booleans()))):
         # creation order of the buses (= row order of net.bus): slack bus first, reversed, or any permutation
         n = len(recipe["buses"])
-        kind = draw(st.sampled_from(["slack-first", "reversed", "permuted"]))
+        kind = draw(st.sampled_from(["slack-first", "reversed", "permuted"] + (["slack-first"] * 3 if sl > 0 else [])))
         if kind == "slack-first":
             order = [sb] + [i for i in range(n) if i != sb]
         elif kind == "reversed":
@@ -465,9 +465,12 @@ def build(recipe, pp=None):
         # buses are created in the given order; labels stay what they would be otherwise (position or custom index)
         blab = [None] * len(recipe["buses"])
         order = [i for i in order if i < len(blab)] + [i for i in range(len(blab)) if i not in order]
+        labels = []      # the labels the buses get when they are created in recipe order (default: max label + 1)
+        for b in recipe["buses"]:
+            labels.append(b["index"] if "index" in b else (max(labels) + 1 if labels else 0))
         for pos in order:
             kw = dict(recipe["buses"][pos])
-            kw.setdefault("index", pos)
+            kw["index"] = labels[pos]
             blab[pos] = pp.create_bus(net, **kw)
     else:
         blab = []
